@@ -217,8 +217,10 @@ Proof. induction s; cbn; [reflexivity|]. now rewrite Nat.eqb_refl. Qed.
 (* a tensor of rank >= 1 that broadcasts to the batch shape: every member is called with its slice *)
 Theorem lazy_broadcast_member (bs s : shape) sd :
   List.length s <> 0 -> bcast_all [bs; s] = Some bs ->
-  lazy_maybe_broadcast true bs sd [KTensor s] = LMember bs (maybe_broadcast (remove_at sd bs) [KTensor (remove_at sd bs)]).
+  forall hetero, lazy_maybe_broadcast true hetero bs sd [KTensor s]
+                 = LMember bs sd (maybe_broadcast (remove_at sd bs) [KTensor (remove_at sd bs)]).
 Proof.
+  intros Hn Hb hetero; revert Hn Hb.
   intros Hn Hb. unfold lazy_maybe_broadcast. cbn [existsb needs_bcast orb negb].
   replace (Nat.eqb (List.length s) 0) with false by (symmetry; now apply Nat.eqb_neq). cbn. cbn in Hb. rewrite Hb.
   now rewrite shape_eqb_refl.
@@ -226,14 +228,18 @@ Qed.
 (* a tensor that enlarges the batch shape: the expanded stack is dense and the dense per-leaf path applies *)
 Theorem lazy_broadcast_dense (bs s B : shape) sd :
   List.length s <> 0 -> bcast_all [bs; s] = Some B -> shape_eqb B bs = false ->
-  lazy_maybe_broadcast true bs sd [KTensor s] = LDense (BPerLeaf B).
+  lazy_maybe_broadcast true false bs sd [KTensor s] = LDense (BPerLeaf B) /\
+  lazy_maybe_broadcast true true bs sd [KTensor s]
+  = LMember B (expand_stack_dim bs sd B)
+            (maybe_broadcast (remove_at (expand_stack_dim bs sd B) B) [KTensor (remove_at (expand_stack_dim bs sd B) B)]).
 Proof.
-  intros Hn Hb He. unfold lazy_maybe_broadcast. cbn [existsb needs_bcast orb negb].
-  replace (Nat.eqb (List.length s) 0) with false by (symmetry; now apply Nat.eqb_neq). cbn. cbn in Hb. rewrite Hb.
-  now rewrite He.
+  intros Hn Hb He. cbn in Hb.
+  split; unfold lazy_maybe_broadcast; cbn [existsb needs_bcast orb negb];
+    (replace (Nat.eqb (List.length s) 0) with false by (symmetry; now apply Nat.eqb_neq)); cbn; rewrite Hb;
+    now rewrite He.
 Qed.
 Lemma lazy_broadcast_before_unsliced :
-  lazy_maybe_broadcast false [2; 3] 0 [KTensor [2; 3]] = LUnsliced [2; 3].
+  lazy_maybe_broadcast false false [2; 3] 0 [KTensor [2; 3]] = LUnsliced [2; 3].
 Proof. reflexivity. Qed.
 
 Lemma expandable_refl (B : shape) : expandable B B = true.
@@ -320,3 +326,42 @@ Proof. reflexivity. Qed.
 Lemma lazy_dense_names_length (bs : shape) ns ns' :
   List.length ns = List.length bs -> lazy_dense_names bs (Some ns) = Some ns' -> List.length ns' = List.length bs.
 Proof. unfold lazy_dense_names. destruct (Nat.leb (List.length bs) 1); [discriminate|]. intros H E. inversion E. now subst. Qed.
+
+(* ------------------------------------------------------------------ a stack that stays lazy when it is expanded:
+   the stack dim moves by the number of new leading dims, and member i of the expanded stack is member i expanded *)
+Lemma skipn_insert_at {A} : forall k n (x : A) l, k <= List.length l ->
+  skipn k (insert_at (k + n) x l) = insert_at n x (skipn k l).
+Proof.
+  induction k as [|k IH]; intros n x l H; [reflexivity|].
+  destruct l as [|a l]; [cbn in H; lia|]. unfold insert_at. cbn [plus firstn skipn app].
+  fold (insert_at (k + n) x l). rewrite IH by (cbn in H; lia). reflexivity.
+Qed.
+Lemma zero_ones_insert_at : forall sd (s : shape) x l, sd < List.length s -> sd <= List.length l ->
+  zero_ones s (insert_at sd x l)
+  = insert_at sd (if Nat.eqb (nth sd s 0) 1 then 0 else x) (zero_ones (remove_at sd s) l).
+Proof.
+  induction sd as [|sd IH]; intros s x l Hs Hl; destruct s as [|d s]; try (cbn in Hs; lia).
+  - reflexivity.
+  - destruct l as [|a l]; [cbn in Hl; lia|]. unfold insert_at, remove_at. cbn [firstn skipn app zero_ones nth].
+    fold (insert_at sd x l). fold (remove_at sd s). rewrite IH by (cbn in Hs, Hl; lia). reflexivity.
+Qed.
+
+(* element (jb with i inserted at the SHIFTED stack dim) of the dense stack expanded to B is element jb of member i
+   expanded to the members' part of B — for operands / target shapes of any rank >= the stack's *)
+Theorem expand_member_commutes (bs B : shape) sd i jb :
+  sd < List.length bs -> List.length bs <= List.length B -> S (List.length jb) = List.length B ->
+  bidx bs (insert_at (expand_stack_dim bs sd B) i jb)
+  = insert_at sd (if Nat.eqb (nth sd bs 0) 1 then 0 else i) (bidx (remove_at sd bs) jb).
+Proof.
+  intros Hs Hb Hj. unfold bidx, expand_stack_dim. rewrite insert_at_length.
+  assert (Hr : S (List.length (remove_at sd bs)) = List.length bs) by now apply remove_at_length.
+  replace (S (List.length jb) - List.length bs) with (List.length B - List.length bs) by lia.
+  replace (List.length jb - List.length (remove_at sd bs)) with (List.length B - List.length bs) by lia.
+  replace (List.length B + sd - List.length bs) with ((List.length B - List.length bs) + sd) by lia.
+  rewrite skipn_insert_at by lia. apply zero_ones_insert_at; [exact Hs|]. rewrite skipn_length. lia.
+Qed.
+(* unbinding along the ORIGINAL stack dim after the expansion (seeded change C09-3) pairs member i with another slice *)
+Lemma expand_member_original_dim_refuted :
+  exists (bs B : shape) sd i jb, sd < List.length bs /\ S (List.length jb) = List.length B /\
+    nth sd (bidx bs (insert_at sd i jb)) 0 <> i.
+Proof. exists [3; 2], [3; 3; 2], 0, 0, [1; 0]. repeat split; cbn; lia. Qed.
